@@ -412,6 +412,7 @@ def run(tier):
     rule_R14(res, prog)
     rule_R15(res, prog)
     rule_R16(res, prog)
+    rule_R17(res, prog)
     rule_R1e(res, prog)
     return res.finish()
 
@@ -1206,3 +1207,41 @@ def rule_R16(res, prog):
                              fn.relfile, esc[-1][1], [p_[1] for p_ in esc[-5:]], field), file=fn.relfile, line=esc[-1][1])
         res.instance(rid, "tls13EncodeResponseServer: %s cleared before a HelloRetryRequest is written" % field, esc is None, finding=f_)
     res.floor(rid, 3)
+
+
+def rule_R17(res, prog):
+    """'only tickets this server holds keys for, under ticket-key rotation': a ticket key is identified by its 16-byte name.
+    Every comparison of a psSessionTicketKeys_t name (memcmp on <key>->name) is made over the whole field - the constant 16,
+    never a sizeof of something else (an array PARAMETER is a pointer: sizeof gives 8) or a shorter constant: with a prefix
+    comparison `delete key K2` removes the first key that shares the prefix (names that differ in a date or counter suffix do),
+    reports success, and tickets under K2 keep resuming."""
+    rid = "C14.R17"
+    res.rule(rid, "ticket keys are looked up, deleted and de-duplicated by their whole 16-byte name")
+    n = 0
+    for fn in sorted(prog.functions.values(), key=lambda f: f.qname):
+        if not fn.blocks or not fn.relfile.startswith("matrixssl/") or "/test/" in fn.relfile:
+            continue
+        for b, ln, c in fn.calls():
+            if (c.get("fn") or "").replace("__builtin_", "") not in ("memcmp", "memcmpct") or len(c.get("a", [])) < 3:
+                continue
+            a0, a1 = strip(c["a"][0]), strip(c["a"][1])
+
+            def is_name(e):
+                while e is not None and e.get("k") == "cast":
+                    e = strip(e["e"])
+                return e is not None and e.get("k") == "mem" and e.get("f") == "name" and "essTicket" in (e.get("r") or "")
+            if not (is_name(a0) or is_name(a1)):
+                continue
+            n += 1
+            ln_ = strip(c["a"][2])
+            while ln_ is not None and ln_.get("k") == "cast":
+                ln_ = strip(ln_["e"])
+            ok = ln_ is not None and ln_.get("k") == "int" and ln_["v"] == 16
+            f_ = None
+            if not ok:
+                f_ = Finding(PROP, rid, fn.name, "ticket key name compared over part of its length",
+                             "%s:%s %s(): a ticket key name is compared over `%s` octets, not the 16 of the field: keys whose names share that "
+                             "prefix are taken for one another - deleting (rotating out) one removes another and the `deleted` key goes on "
+                             "decrypting tickets" % (fn.relfile, ln, fn.name, (ln_ or {}).get("v", "a non-constant length")), file=fn.relfile, line=ln)
+            res.instance(rid, "%s:%s memcmp on a ticket key name over 16 octets" % (fn.name, ln), ok, finding=f_)
+    res.floor(rid, 3 if prog.defined("USE_STATELESS_SESSION_TICKETS") else 0)
